@@ -17,7 +17,7 @@ import pyside as PS
 
 CID = 'C12'
 OPS = ['EQ', 'EQ', 'EQ', 'EQ', 'FR', 'FR', 'MV', 'I', 'I', 'ES', 'SS', 'SIMP', 'HNF', 'UI', 'UA', 'DE', 'DS', 'DY', 'DX', 'DM',
-       'MS', 'MS', 'DN', 'DN', 'DNP']
+       'MS', 'MS', 'DN', 'DN', 'DNP', 'UW', 'UW', 'UE']
 
 
 def sigfun(c, impl, got, flag, drop):
@@ -93,6 +93,15 @@ def gen_cases(rng, sides, n, drop):
                 for _k in range(rng.randrange(0, 3)):
                     p = ('I', PC.mv(1), ((1, p),))
             args = PC.show(p)
+        elif op in ('UW', 'UE'):
+            # unwrap / extract of ANY class on a notation-headed pattern: the base class Pattern (11), Instantiate itself (10),
+            # the class of the expansion's head, or another one
+            if p[0] != 'I' and rng.random() < 0.8:
+                nt = rng.choice([x for x in gen.notations if x.arity >= 1])
+                p = nt(*[gen.term(rng.choice([0, 1, 2])) for _ in range(nt.arity)])
+            head = {'e': 0, 's': 1, 'y': 2, 'i': 3, 'a': 4, 'x': 5, 'm': 6, 'v': 7, 'E': 8, 'S': 9}[G.ref_expand(p, drop)[0]]
+            code = rng.choice([11, 11, 11, 10, head, head, rng.randrange(12)])
+            args = f'{code} {PC.show(p)}'
         elif op in ('DN', 'DNP'):
             # application spines through notation: n-ary applications, argument-permuting / metavariable-headed
             # definitions, dicts that are not in key order, partial applications
